@@ -311,5 +311,3 @@ func shrinkBE(sc *Scenario, yield func(c *Scenario) bool) {
 		}
 	}
 }
-
-func genC18BE(r *rand.Rand, run int, tier string) *Scenario { return genC18(r, run-1, tier) }
